@@ -63,9 +63,9 @@ func isWitProg(r rawCase) bool {
 
 // Run is the C16 check.
 func Run(c *vrun.Ctx) error {
-	c.Ev.Coverage.Rule = "TLC enumerates the cases of AddrCases.tla: the decision tables of DecodeAddress over abstract strings (bech32 form: witness version -1..17,31 (thorough: ..31) x 0..67 data symbols = every program length 0..42 x padding x checksum variant {bech32, bech32m, bad} x case, structural defects, mixed case; " +
+	c.Ev.Coverage.Rule = "TLC enumerates the cases of AddrCases.tla: the decision tables of DecodeAddress over abstract strings (bech32 form: witness version -1..17,31 (thorough: ..31) x 0..67 data symbols = every program length 0..42 x left-over bits of the 5->8 regrouping {none, 1..4 zero, 1..4 non-zero, 5..7 zero (a superfluous symbol), 5..7 non-zero} x checksum variant {bech32, bech32m, bad} x case, structural defects, mixed case; " +
 		"Base58Check form: version byte class x payload length x checksum x default network; hex key form), concrete address strings computed by the specification's own BIP173 arithmetic for every prefix x version 0..16 x program length x pattern, base-58 strings computed by the specification's digit arithmetic, " +
-		"address kind x network (9 parameter sets: the six of chaincfg and three made by the binder) with template / class / extraction, template mutations and the witness program grid, spending-data forms, the WIF and serialised extended key tables, " +
+		"address kind x network (12 parameter sets: the six of chaincfg and six made by the binder, among them prefix classes of BIP173: a prefix containing the digit 1, a one-character prefix, a prefix registered in upper case) with template / class / extraction, template mutations and the witness program grid (version 0..16 x length 1,2,3,19..21,31..33,39,40,41 (thorough 1..42) x push form, with IsWitnessProgram / ExtractWitnessProgramInfo), spending-data forms, the WIF and serialised extended key tables, " +
 		"BIP32 operation sequences (<= 3 derivations over {normal, hardened} x {0, 2^31-1} (thorough: also 1) with Neuter at every position, private and public roots, roots at depth 252..255) and the documented BIP32 vectors, " +
 		"taproot leaf lists (every partition into equal scripts up to 4 (thorough 6) leaves, distinct up to 6 (10)) x leaf version patterns with the assembler's tree, all binary tree shapes up to 5 (7) leaves, 9 control block mutations per leaf, and edit classes (1..4 edits x 6 types x region) on valid addresses. " +
 		"Every case is replayed into the real packages; every string offered to a decoder is abstracted by the binder and the answer looked up in the TLC-produced table. distinct_nontrivial counts distinct abstract cases."
@@ -156,19 +156,22 @@ func replay(c *vrun.Ctx, cases []rawCase) error {
 
 	// the networks first: everything else is bound through them
 	var rows []netRow
+	exps := map[string]netExpect{}
 	for _, rc := range cases {
 		if rc.kind == "net" {
 			var cs struct {
 				N netRow `json:"n"`
 			}
-			if err := rc.decode(&cs, nil); err != nil {
+			var ex netExpect
+			if err := rc.decode(&cs, &ex); err != nil {
 				return err
 			}
 			rows = append(rows, cs.N)
+			exps[cs.N.Name] = ex
 		}
 	}
 	sort.Slice(rows, func(i, j int) bool { return rows[i].Name < rows[j].Name })
-	w, err := newWorld(rows)
+	w, err := newWorld(rows, exps)
 	if err != nil {
 		return err
 	}
